@@ -1081,6 +1081,11 @@ func flt_filterTables(repo string, _ []string) (string, error) {
 		return "", err
 	}
 	sb.WriteString(cc)
+	vs, err := t.valueSources(repo)
+	if err != nil {
+		return "", err
+	}
+	sb.WriteString(vs)
 
 	fmt.Fprintf(&sb, "Definition gen_tables : tables := {|\n  t_flags := map (fun x => (fst (fst x), snd x)) gen_filter_ops;\n  t_const_str := %s;\n  t_const_int := %s;\n  t_funcref := %s;\n"+
 		"  t_conv_unop := gen_conv_unop;\n  t_conv_binop := gen_conv_binop;\n  t_conv_sel := gen_conv_sel;\n  t_conv_call := gen_conv_call;\n"+
